@@ -227,7 +227,9 @@ RetRealloc(c, r) ==
           /\ (hasOld => GD("ReallocKeepsPrefix", c.op, r.keep >= keepNeed))
           \* re-allocating with the same alignment (and offset) keeps it: demanded when the old block had that alignment
           \* (or p = NULL); the variants without offset re-use the old pointer's residue (upstream semantics)
-          /\ ((c.al > 0 /\ (~hasOld \/ AlignedAt(old.a, c.off, c.al))) => G("AlignKeptByRealloc", AlignedAt(r.a, c.off, c.al)))
+          \* (the variants with an explicit offset use exactly the requested alignment and offset, whatever the old address was;
+          \*  the plain aligned variants re-use the old pointer's residue, so for them the demand needs an old address that satisfies it)
+          /\ ((c.al > 0 /\ (~hasOld \/ (c.at /\ c.al > 8) \/ AlignedAt(old.a, c.off, c.al))) => G("AlignKeptByRealloc", AlignedAt(r.a, c.off, c.al)))     \* (alignments up to a word with a compatible offset go through the plain re-allocation)
           /\ ((c.al = 0 /\ ~sameAddr) => G("AlignOK", AlignedAt(r.a, 0, DefaultAlign(c.n))))
           /\ ((c.op \in ZeroingReallocOps /\ ~hasOld) => G("ZeroOK", r.z >= c.n))
           /\ ((c.op \in ZeroingReallocOps /\ hasOld /\ old.zl /\ c.n > old.req) =>
